@@ -4,6 +4,7 @@ import os
 from harness import Test, Fail, st, GEN
 from gens import expand, int_spec, resolve
 import pyref.bign as RB
+import pyref.belt as BELT
 from errs import E, name as ename
 
 RULE = ("cases: 3 standard curves x private keys {1, 2, q-1, random} x hashes {0, 1, q-1, q, q+1, 2^2l-1, random} x OIDs (valid of several lengths) x generator tapes "
@@ -129,6 +130,12 @@ def run_sign(ctx, c):
         if s1 + q < 1 << (8 * n): fs = msig[:s0l] + (s1 + q).to_bytes(n, "little")
     elif alt == "s1q": fs = msig[:s0l] + q.to_bytes(n, "little")
     elif alt == "s1zero": fs = msig[:s0l] + bytes(n)
+    elif alt == "rzero":
+        # forged (S0, S1) with R = (S1 + H) G + (S0 + 2^l) Q = O (7.1.4: reject); S0 is what a verifier that went on would hash from a stale <R>
+        stale = [bytes(n), Qb[:n], bytes(n - 1) + b"\x01"][c["bit"] % 3]
+        S0 = BELT.hash(oid + stale + H)[:s0l]
+        s1z = (-int.from_bytes(H, "little") - (int.from_bytes(S0, "little") + (1 << l)) * md) % q
+        fs = S0 + s1z.to_bytes(n, "little")
     elif alt == "s0inc": fs = ((int.from_bytes(msig[:s0l], "little") + 1) % (1 << l)).to_bytes(s0l, "little") + msig[s0l:]
     elif alt == "hbit": fH = flip(H, c["bit"])
     elif alt == "hpq":
@@ -176,7 +183,7 @@ S_SIGN = st.fixed_dictionaries({
     "d": st.sampled_from(["rnd", "rnd", "one", "two", "qm1"]), "h": st.sampled_from(["rnd", "rnd", "zero", "one", "qm1", "q", "qp1", "max"]),
     "kc": st.sampled_from(["rnd", "rnd", "one", "qm1"]),
     "rej": st.one_of(REJ, REJ, st.sampled_from([["q"] * 64, ["max"] * 65, ["zero"] * 64])), "rejk": REJ, "t": st.sampled_from([None, 0, 1, 32, 100]),
-    "alt": st.sampled_from(["none", "sigbit", "sigbit", "s1pq", "s1q", "s1zero", "s0inc", "hbit", "hpq", "oid", "oidbit", "qneg", "qother", "qbit", "qxp", "qzero"]),
+    "alt": st.sampled_from(["none", "sigbit", "sigbit", "s1pq", "s1q", "s1zero", "rzero", "s0inc", "hbit", "hpq", "oid", "oidbit", "qneg", "qother", "qbit", "qxp", "qzero"]),
     "bit": st.integers(0, 2000)})
 
 
@@ -260,6 +267,12 @@ def run_ibs(ctx, c):
         s0 = int.from_bytes(RB.sign(M, oid, idh, 1, k0)[:n // 2], "little")
         d = k0 * pow(s0 + (1 << l), -1, q) % q
         Qb = RB.point_to_octets(M, RB.pubkey_calc(M, d))
+    elif c["d"] == "s1small":
+        # a trusted-party signature whose second part S1 = (k0 - H0 - (S0 + 2^l) d) mod q is tiny, so that S1 + q is a second encoding below p
+        s0 = int.from_bytes(RB.sign(M, oid, idh, 1, k0)[:n // 2], "little")
+        d = (k0 - int.from_bytes(idh, "little") - c["bit"] % 7) * pow(s0 + (1 << l), -1, q) % q
+        d = d or 1
+        Qb = RB.point_to_octets(M, RB.pubkey_calc(M, d))
     sig0 = RB.sign(M, oid, idh, d, k0)
     ipriv, ipub = x.out(n), x.out(2 * n)
     r = x.call("bignIdExtract", ipriv, ipub, P, OID, len(oid), x.buf(idh), x.buf(sig0), x.buf(Qb))
@@ -302,6 +315,19 @@ def run_ibs(ctx, c):
     elif alt == "qneg":
         y = int.from_bytes(Qb[n:], "little"); fQ = Qb[:n] + (p - y).to_bytes(n, "little")
     elif alt == "s1q": fs = ms[:l // 8] + q.to_bytes(n, "little")
+    elif alt == "vzero":
+        # a forged pair (S0, S1) for which the point V of B.2.5 is the point at infinity (rejected by the standard): the party that knows the
+        # discrete logarithms d of Q and r of R = e G + (S0' + 2^l) Q solves (S1 + H) + (S0 + 2^l)(r - (t + 2^l) d) = 0 mod q, with S0 chosen
+        # as the hash value a verifier would compute from an all-zero encoding of V
+        s0p = int.from_bytes(sig0[:n // 2], "little")
+        r_ = (e + (s0p + (1 << l)) * d) % q
+        t_ = int.from_bytes(BELT.hash(oid + ipub.read()[:n] + idh)[:n // 2], "little")
+        # (what an implementation that went on after V = O would hash in place of <V>: nothing is defined, so several stale values are tried)
+        stale = [bytes(n), ipub.read()[:n], Qb[:n]][c["bit"] % 3]
+        S0 = BELT.hash(oid + stale + idh + H)[:n // 2]
+        s0v = int.from_bytes(S0, "little")
+        s1v = (-int.from_bytes(H, "little") - (s0v + (1 << l)) * (r_ - (t_ + (1 << l)) * d)) % q
+        fs = S0 + s1v.to_bytes(n, "little")
     if RB.pubkey_val(M, fpub) and RB.pubkey_val(M, fQ):
         mv = RB.id_verify(M, oid, fid, fH, fs, fpub, fQ)
         r = x.call("bignIdVerify", P, OID, len(oid), x.buf(fid), x.buf(fH), x.buf(fs), x.buf(fpub), x.buf(fQ))
@@ -309,6 +335,9 @@ def run_ibs(ctx, c):
             raise Fail("bignIdVerify verdict %s on alteration %s, model says %s" % (ename(r), alt, mv))
     # extraction from an altered signature must fail exactly when the model's verification fails
     bad0 = flip(sig0, c["bit"])
+    s1o = int.from_bytes(sig0[n // 2:], "little")
+    if c["d"] == "s1small" and s1o + q < (1 << (8 * n)):
+        bad0 = sig0[:n // 2] + (s1o + q).to_bytes(n, "little")      # the same residue encoded as S1 + q (>= q: not a signature)
     r = x.call("bignIdExtract", x.out(n), x.out(2 * n), P, OID, len(oid), x.buf(idh), x.buf(bad0), x.buf(Qb))
     me = RB.id_extract(M, oid, idh, bad0, Qb)
     if (r == 0) != (not isinstance(me, str)):
@@ -320,8 +349,8 @@ def run_ibs(ctx, c):
 
 S_IBS = st.fixed_dictionaries({
     "l": st.sampled_from([128, 192, 256]), "seed": st.binary(min_size=1, max_size=4).map(bytes.hex), "oid": st.sampled_from(OIDS),
-    "d": st.sampled_from(["rnd", "rnd", "one", "qm1", "ezero"]), "h": st.sampled_from(["rnd", "rnd", "zero", "q", "max"]), "idh": st.sampled_from(["rnd", "rnd", "zero", "max"]),
-    "rejk": REJ, "t": st.sampled_from([None, 0, 1, 32, 100]), "alt": st.sampled_from(["none", "sigbit", "hbit", "idbit", "pubneg", "qneg", "s1q"]), "bit": st.integers(0, 2000)})
+    "d": st.sampled_from(["rnd", "rnd", "one", "qm1", "ezero", "s1small"]), "h": st.sampled_from(["rnd", "rnd", "zero", "q", "max"]), "idh": st.sampled_from(["rnd", "rnd", "zero", "max"]),
+    "rejk": REJ, "t": st.sampled_from([None, 0, 1, 32, 100]), "alt": st.sampled_from(["none", "sigbit", "hbit", "idbit", "pubneg", "qneg", "s1q", "vzero"]), "bit": st.integers(0, 2000)})
 
 
 def tests(tier):
